@@ -49,3 +49,4 @@ require (
 )
 
 replace example.com/scion-time => /repo
+require github.com/anishathalye/porcupine v1.3.0
